@@ -17,7 +17,10 @@ use std::sync::{Condvar, Mutex};
 
 #[derive(Debug, Clone, Copy, PartialEq, Eq)]
 pub enum Kind {
+    /// plain shared acquisition: blocks behind a waiting writer (parking_lot's fairness rule)
     Shared,
+    /// recursive shared acquisition (`read_recursive`): only blocks while a writer HOLDS the lock
+    SharedRecursive,
     Exclusive,
 }
 
@@ -31,7 +34,7 @@ fn can(p: &Pending) -> bool {
     // all other controlled threads are parked, so this read is stable
     let st = unsafe { &*(p.addr as *const AtomicUsize) }.load(SeqCst);
     match p.kind {
-        Kind::Shared => st & 1 == 0,
+        Kind::Shared | Kind::SharedRecursive => st & 1 == 0,
         Kind::Exclusive => st == 0,
     }
 }
@@ -110,7 +113,20 @@ pub fn begin(prefix: Vec<u8>, horizon: u64) {
 }
 
 fn choose(g: &mut Global, from: Option<usize>) -> Option<usize> {
-    let enabled: Vec<usize> = g.threads.iter().enumerate().filter(|(_, s)| s.started && !s.finished && s.pending.as_ref().map_or(true, can)).map(|(i, _)| i).collect();
+    // parking_lot's RwLock prefers writers: once a writer waits for a lock, new (non-recursive) readers of that
+    // lock block behind it. A pending exclusive request of ANOTHER thread therefore disables a plain shared one.
+    let writers_waiting: Vec<(usize, usize)> = g.threads.iter().enumerate().filter(|(_, s)| s.started && !s.finished).filter_map(|(i, s)| s.pending.filter(|p| p.kind == Kind::Exclusive).map(|p| (i, p.addr))).collect();
+    let enabled: Vec<usize> = g
+        .threads
+        .iter()
+        .enumerate()
+        .filter(|(i, s)| {
+            s.started
+                && !s.finished
+                && s.pending.as_ref().map_or(true, |p| can(p) && !(p.kind == Kind::Shared && writers_waiting.iter().any(|(j, a)| j != i && *a == p.addr)))
+        })
+        .map(|(i, _)| i)
+        .collect();
     if enabled.is_empty() {
         if g.threads.iter().all(|s| s.finished) {
             return None;
